@@ -136,3 +136,80 @@ def cs_noline(x):
             return y[:-1]
         return y
     return x
+
+
+def rule_forth_parse_depth(rep, fb, floor=8, name="FORTH.parse-depth"):
+    r = rep.rule(name, "every recursive call of ForthMachineOf::parse that compiles the body of a control structure (if/else, do/loop, begin/until/while/repeat/again) passes exitdepth + 1: "
+                 "each body is one more segment that `exit` has to unwind; a body compiled with the caller's own exitdepth makes `exit` inside it act as `continue`", floor=floor)
+    fs = [f for f in fb.lib_funcs(inst=False) if (f.get("cls") or "").startswith("ForthMachineOf") and f["name"] == "parse"]
+    if not fs:
+        raise AnalysisError("ForthMachineOf::parse not found")
+    f = fs[0]
+    pnames = [p[0] for p in f["params"]]
+    if "exitdepth" not in pnames:
+        raise AnalysisError("ForthMachineOf::parse has no parameter exitdepth")
+    ix = pnames.index("exitdepth")
+    n = 0
+    for c in find_all(f["body"], lambda k: (k[0] == "mcall" and k[1] == "parse" and len(k[4]) > ix) or (k[0] == "call" and k[1][0] == "fn" and str(k[1][1]).endswith("parse") and len(k[2]) > ix)):
+        args = c[4] if c[0] == "mcall" else c[2]
+        a = args[ix]
+        n += 1
+        ok = (a[0] == "bin" and a[1] == "+" and ("var", "exitdepth") in (a[2], a[3]) and ("const", 1) in (a[2], a[3])) or a[0] == "const"
+        r.check(ok, "parse#call%d" % n, "%s:%d" % (f["file"], c[-1] if isinstance(c[-1], int) else f["line"]), "ForthMachineOf::parse compiles a nested body with exitdepth `%s` instead of exitdepth + 1" % (str(a)[:40]), detail="exitdepth + 1")
+    return r.done()
+
+
+def rule_narrow_accumulator(rep, fb, floor=1, name="WIDTH.narrow-accumulator"):
+    r = rep.rule(name, "in every kernel specialisation, a running total that is stored into a 64-bit output (`tooffsets[i + 1] = offset`) is itself 64 bits wide: a local declared with the kernel's index type C "
+                 "(int32_t / uint32_t in two of three specialisations) and advanced with `+=` wraps although each addend fits", floor=floor)
+    n = m = 0
+    for fs in fb.kernel_functions().values():
+        for f in fs:
+            if not f["inst"]:
+                continue
+            ptypes = dict(f["params"])
+            for d in find_all(f["body"], lambda k: k[0] == "decl" and re.match(r"^(const )?(int|unsigned int|short|unsigned short|signed char|unsigned char|int32_t|uint32_t|int16_t|uint16_t|int8_t|uint8_t)$", str(k[2]) or "")):
+                v = d[1]
+                augs = find_all(f["body"], lambda k: (k[0] == "aug" and k[1] in ("+", "*") and k[2] == ("var", v) and not (k[3][0] == "const")) or (k[0] == "assign" and k[1] == ("var", v) and k[2][0] == "bin" and k[2][1] in ("+", "*") and ("var", v) in (k[2][2], k[2][3]) and not any(x[0] == "const" for x in (k[2][2], k[2][3]))))
+                if not augs:
+                    continue
+                # stored into a 64-bit output array?
+                stores = find_all(f["body"], lambda k: k[0] == "assign" and k[1][0] == "idx" and k[1][1][0] == "var" and re.search(r"\b(long|int64_t|unsigned long|uint64_t)\b", ptypes.get(k[1][1][1], "")) and find_all((k[2],), lambda q: q == ("var", v)))
+                m += 1
+                if stores:
+                    n += 1
+                    r.fail("%s%s#%s" % (f["qual"], list(f.get("ftargs") or ()), v), "%s:%d" % (f["file"], d[-1] if isinstance(d[-1], int) else f["line"]), "%s%s accumulates into `%s %s` and stores it into the 64-bit output %s: the total wraps at the narrow type's range" % (
+                        f["qual"], list(f.get("ftargs") or ()), d[2], v, stores[0][1][1][1]))
+    r.count("narrow_accumulators_seen", m)
+    r.ok("tree-wide", "%d narrow accumulators, none stored into a wider output" % m)
+    return r.done()
+
+
+def rule_index_form_arms(rep, fb, floor=5, name="CLONE.index-form-arms"):
+    r = rep.rule(name, "in a switch over Index::Form (i8 / u8 / i32 / u32 / i64), the arms are the same code once the index width is abstracted (Index32 ~ Index64, int32_t ~ int64_t, IndexedOptionArray32 ~ ...64): "
+                 "an arm that builds its Index differently from its siblings (another offset, another length, another buffer) is a slip that only one index width exposes", floor=floor)
+
+    def absw(x):
+        s = repr(cs_noline(x))
+        s = re.sub(r"(Array|Index|int|uint|toIndex)(U?8_U?32|8_64|8_U32|8_32|U8|U32|8|32|64)(_t)?", r"\1W", s)
+        return s
+    nsw = 0
+    for f in fb.lib_funcs(inst=False):
+        for s in find_all(f["body"], lambda k: k[0] == "switch"):
+            arms = []
+            for labels, body in s[2]:
+                ls = [l[1].split("::")[-1] for l in labels if isinstance(l, tuple) and l[0] == "enum" and "Form::" in l[1]]
+                if not ls or not body or body[0][0] in ("throw", "break"):
+                    continue
+                if not find_all(body, lambda k: k[0] in ("make", "ctor") and re.search(r"(Array|Index)", str(k[1]))):
+                    continue     # a lookup table (names, formats): its arms differ by design
+                arms.append((",".join(ls), absw(tuple(body))))
+            if len(arms) < 2:
+                continue
+            nsw += 1
+            forms = {}
+            for lab, nf in arms:
+                forms.setdefault(nf, []).append(lab)
+            r.check(len(forms) == 1, "%s#switch@%d" % (f["qual"], nsw), "%s:%d" % (f["file"], s[-1] if isinstance(s[-1], int) else f["line"]),
+                    "%s: the arms of the switch over Index::Form differ beyond the index width (%s)" % (f["qual"], " vs ".join("/".join(v) for v in forms.values())), detail="arms are clones modulo width")
+    return r.done()
